@@ -103,6 +103,9 @@ func genCase(t *rapid.T) Case {
 			base := new(big.Int).Lsh(big.NewInt(1), uint(rapid.IntRange(53, 64).Draw(t, "b")))
 			base.Add(base, new(big.Int).Lsh(big.NewInt(1), uint(rapid.IntRange(0, 10).Draw(t, "h"))))
 			k := rapid.IntRange(0, 12).Draw(t, "k")
+			if gen.Pick(t, 3, "fartail") == 0 {
+				k = rapid.IntRange(13, 80).Draw(t, "kfar") // the deciding digit dozens of places out
+			}
 			w := new(big.Int).Mul(base, ref.Pow10(int64(k)))
 			w.Add(w, big.NewInt(int64(rapid.IntRange(-1, 1).Draw(t, "d"))))
 			c.X = core.Dec{Coeff: w.String(), Exp: int32(-k + rapid.IntRange(-3, 3).Draw(t, "sh")), Neg: rapid.Bool().Draw(t, "neg")}
